@@ -139,6 +139,38 @@ Example C07_example_notls_plain_refused :
   clear_cmds (w_trace (snd (run (dial 8 cfg) (world0 s)))) = [VQuit; VEhlo].
 Proof. vm_compute. auto. Qed.
 
+(* ---- sequences of dials of one mail.Client (re-dial after Close, DialAndSend twice, a setter in between) ---- *)
+
+(* T1: no function of the dial path (DialToSMTPClientWithContext, tls, auth, authTypeAutoDiscover, checkConn, ...) assigns
+   a field of the Client (Gen.client_all_writes, the inventory of all assignments to Client fields by any method): the
+   dial remembers nothing, in particular authTypeAutoDiscover is a pure function of (advertised list, isEnc) *)
+Theorem C07_source_dial_path_writes_nothing : dial_path_writes_nothing = true.
+Proof. exact (eq_refl true). Qed.
+Print Assumptions C07_source_dial_path_writes_nothing.
+
+(* memoryless: the outcome of the k-th dial of a sequence is a function of the k-th configuration and server only *)
+Theorem C07_autodiscover_memoryless : forall fuel l k cfg s,
+  nth_error l k = Some (cfg, s) ->
+  nth_error (dial_sequence fuel l) k = Some (run (dial fuel cfg) (world0 s)).
+Proof. exact dial_sequence_nth_l. Qed.
+Print Assumptions C07_autodiscover_memoryless.
+
+(* so C07_password_confined and C07_mandatory (and with them C07_autodiscover, which is about the pure function
+   auto_discover) hold for every dial of every sequence *)
+Theorem C07_password_confined_sequence : forall fuel l x v,
+  In x (dial_sequence fuel l) ->
+  In v (clear_cmds (w_trace (snd x))) -> reveals_password v = true ->
+  exists cfg s, In (cfg, s) l /\
+    (c_custom cfg = None -> noenc_type (c_auth cfg) = true \/ Dial.is_localhost (c_host cfg) = true).
+Proof. exact C07_sequence_password_confined_l. Qed.
+Print Assumptions C07_password_confined_sequence.
+
+Theorem C07_mandatory_sequence : forall fuel l x v,
+  In x (dial_sequence fuel l) -> In v (clear_cmds (w_trace (snd x))) ->
+  exists cfg s, In (cfg, s) l /\ (c_policy cfg = Mandatory -> c_ssl cfg = false -> handshake_free_verb v = true).
+Proof. exact C07_sequence_mandatory_l. Qed.
+Print Assumptions C07_mandatory_sequence.
+
 (* ---- the configuration path: which policy / ssl flag is in force when the dial starts ---- *)
 
 (* T1: every policy / ssl setter and option of client.go assigns its field as its last statement without an earlier
